@@ -309,9 +309,24 @@ func (in *instr) withStepsList(list []ast.Stmt) []ast.Stmt {
 }
 
 func (in *instr) insertSteps() {
+	clauseBlocks := map[*ast.BlockStmt]bool{}
+	ast.Inspect(in.file, func(n ast.Node) bool {
+		switch x := n.(type) {
+		case *ast.SwitchStmt:
+			clauseBlocks[x.Body] = true
+		case *ast.TypeSwitchStmt:
+			clauseBlocks[x.Body] = true
+		case *ast.SelectStmt:
+			clauseBlocks[x.Body] = true
+		}
+		return true
+	})
 	ast.Inspect(in.file, func(n ast.Node) bool {
 		switch x := n.(type) {
 		case *ast.BlockStmt:
+			if clauseBlocks[x] {
+				return true
+			}
 			x.List = in.withStepsList(x.List)
 		case *ast.CaseClause:
 			x.Body = in.withStepsList(x.Body)
